@@ -397,25 +397,45 @@ theorem atofHex_eq (m0 : Nat) (e0 : Int) (neg : Bool) :
   simp only [Bool.false_eq_true, if_false, show ((-1023 : Int) + 1) = -1022 from rfl]
   rfl
 
-/-- the same, as arithmetic on the rounded mantissa q' -/
-def finishQ (q' : Nat) (e : Int) (neg : Bool) : FloatRes :=
-  if (if (if q' = 2 ^ 53 then 2 ^ 52 else q') < 2 ^ 52 then (-1023 : Int) else (if q' = 2 ^ 53 then e + 3 else e + 2)) > 1023 then
-    ⟨signed neg posInf, some .range⟩
-  else
-    ⟨signed neg (UInt64.ofNat ((if q' = 2 ^ 53 then 2 ^ 52 else q') % 2 ^ 52 +
-        ((if (if q' = 2 ^ 53 then 2 ^ 52 else q') < 2 ^ 52 then (-1023 : Int) else (if q' = 2 ^ 53 then e + 3 else e + 2)) + 1023).toNat * 2 ^ 52)), none⟩
-
 theorem signed_ofNat (neg : Bool) (b : Nat) (hb : b < 2 ^ 63) :
     UInt64.ofNat (if neg then b ||| 2 ^ 63 else b) = signed neg (UInt64.ofNat b) := by
   cases neg
   · rfl
   · simp only [if_true]; exact ofNat_or_sign b hb
 
-theorem hexFinish_eq (m : Nat) (e : Int) (neg : Bool) (hm : m < 2 ^ 55) :
-    hexFinish m e neg =
-      finishQ (m / 4 + (if m % 4 = 3 ∨ (m % 4 = 2 ∧ (m / 4) % 2 = 1) then 1 else 0)) e neg := by
+/-- rounding and carry: "round using two bottom bits" -/
+def roundStep (m : Nat) (exp : Int) : Nat × Int :=
+  let round := m &&& 3
+  let m := m >>> 2
+  let round := round ||| (m &&& 1)
+  let exp := exp + 2
+  if round == 3 then
+    let m := m + 1
+    if m == 2 ^ 53 then (m >>> 1, exp + 1) else (m, exp)
+  else (m, exp)
+
+/-- denormal exponent, overflow, assembly of the bits -/
+def hexPack (m : Nat) (exp : Int) (neg : Bool) : FloatRes :=
+  let bias : Int := -1023
+  let maxExp : Int := 2 ^ 11 + bias - 2
+  let exp := if m >>> 52 == 0 then bias else exp
+  let ovf := exp > maxExp
+  let (m, exp) := if ovf then ((2 : Nat) ^ 52, maxExp + 1) else (m, exp)
+  let bits : Nat := (m &&& (2 ^ 52 - 1)) ||| (((exp - bias) % 2048).toNat <<< 52)
+  let bits := if neg then bits ||| 2 ^ 63 else bits
+  ⟨UInt64.ofNat bits, if ovf then some .range else none⟩
+
+theorem hexFinish_split (m : Nat) (exp : Int) (neg : Bool) :
+    hexFinish m exp neg = hexPack (roundStep m exp).1 (roundStep m exp).2 neg := by
+  unfold hexFinish hexPack roundStep
+  rfl
+
+theorem roundStep_eq (m : Nat) (e : Int) (hm : m < 2 ^ 55) :
+    roundStep m e =
+      if m / 4 + (if m % 4 = 3 ∨ (m % 4 = 2 ∧ (m / 4) % 2 = 1) then 1 else 0) = 2 ^ 53 then (2 ^ 52, e + 3)
+      else (m / 4 + (if m % 4 = 3 ∨ (m % 4 = 2 ∧ (m / 4) % 2 = 1) then 1 else 0), e + 2) := by
   have hq : m / 4 < 2 ^ 53 := by omega
-  unfold hexFinish finishQ
+  unfold roundStep
   have r1 : m &&& 3 = m % 4 := by
     have := Nat.and_two_pow_sub_one_eq_mod m 2
     simpa using this
@@ -425,88 +445,372 @@ theorem hexFinish_eq (m : Nat) (e : Int) (neg : Bool) (hm : m < 2 ^ 55) :
     round_bits _ _ (Nat.mod_lt _ (by decide)) (Nat.mod_lt _ (by decide))
   simp only [r1, r2, r3, r4]
   generalize m / 4 = q at *
-  generalize (m % 4 = 3 ∨ (m % 4 = 2 ∧ q % 2 = 1)) = P at *
-  by_cases hP : P
+  by_cases hP : (m % 4 = 3 ∨ (m % 4 = 2 ∧ q % 2 = 1))
   · simp only [hP, decide_true, if_true]
     by_cases h53 : q + 1 = 2 ^ 53
     · have hs : (q + 1) >>> 1 = 2 ^ 52 := by rw [Nat.shiftRight_eq_div_pow, h53]; rfl
       have e1 : ((q + 1 == 2 ^ 53) = true) := by simpa using h53
-      simp only [e1, if_true, hs, h53]
-      have e2 : ((2 : Nat) ^ 52 >>> 52 == 0) = false := by decide
-      have e3 : ¬ ((2 : Nat) ^ 52 < 2 ^ 52) := by decide
-      simp only [e2, e3, Bool.false_eq_true, if_false]
-      by_cases hov : e + 2 + 1 > 2 ^ 11 + -1023 - 2
-      · have hov' : e + 3 > 1023 := by omega
-        simp only [hov, decide_true, if_true, hov']
-        have : UInt64.ofNat (if neg = true then ((2 : Nat) ^ 52 &&& (2 ^ 52 - 1) ||| ((((2 : Int) ^ 11 + -1023 - 2 + 1 - -1023) % 2048).toNat <<< 52)) ||| 2 ^ 63
-            else ((2 : Nat) ^ 52 &&& (2 ^ 52 - 1) ||| ((((2 : Int) ^ 11 + -1023 - 2 + 1 - -1023) % 2048).toNat <<< 52))) = signed neg posInf := by
-          rw [signed_ofNat neg _ (by decide)]; rfl
-        rw [this]
-      · have hov' : ¬ e + 3 > 1023 := by omega
-        simp only [hov, decide_false, Bool.false_eq_true, if_false, hov']
-        rw [assemble]
-        have hE : ((e + 2 + 1 - -1023) % 2048).toNat = (e + 3 + 1023).toNat := by omega
-        rw [hE]
-        have hb : (2 : Nat) ^ 52 % 2 ^ 52 + (e + 3 + 1023).toNat * 2 ^ 52 < 2 ^ 63 := by omega
-        rw [signed_ofNat neg _ hb]
-    · have e1 : ((q + 1 == 2 ^ 53) = false) := by simpa using h53
-      simp only [e1, Bool.false_eq_true, if_false, h53]
-      have hcond : (((q + 1) >>> 52 == 0) = true) ↔ q + 1 < 2 ^ 52 := by
-        rw [beq_iff_eq, shr_eq_zero]
-      by_cases hlt : q + 1 < 2 ^ 52
-      · simp only [hcond.mpr hlt, if_true, hlt]
-        have h1 : ¬ ((-1023 : Int) > 2 ^ 11 + -1023 - 2) := by decide
-        have h2 : ¬ ((-1023 : Int) > 1023) := by decide
-        simp only [h1, decide_false, Bool.false_eq_true, if_false, h2]
-        rw [assemble]
-        have hb : (q + 1) % 2 ^ 52 + ((-1023 : Int) + 1023).toNat * 2 ^ 52 < 2 ^ 63 := by omega
-        have hE : (((-1023 : Int) - -1023) % 2048).toNat = ((-1023 : Int) + 1023).toNat := by decide
-        rw [hE, signed_ofNat neg _ hb]
-      · have hne : ¬ (((q + 1) >>> 52 == 0) = true) := fun h => hlt (hcond.mp h)
-        simp only [hne, if_false, hlt]
-        by_cases hov : e + 2 > 2 ^ 11 + -1023 - 2
-        · have hov' : e + 2 > 1023 := by omega
-          simp only [hov, decide_true, if_true, hov']
-          have : UInt64.ofNat (if neg = true then ((2 : Nat) ^ 52 &&& (2 ^ 52 - 1) ||| ((((2 : Int) ^ 11 + -1023 - 2 + 1 - -1023) % 2048).toNat <<< 52)) ||| 2 ^ 63
-              else ((2 : Nat) ^ 52 &&& (2 ^ 52 - 1) ||| ((((2 : Int) ^ 11 + -1023 - 2 + 1 - -1023) % 2048).toNat <<< 52))) = signed neg posInf := by
-            rw [signed_ofNat neg _ (by decide)]; rfl
-          rw [this]
-        · have hov' : ¬ e + 2 > 1023 := by omega
-          simp only [hov, decide_false, Bool.false_eq_true, if_false, hov']
-          rw [assemble]
-          have hE : ((e + 2 - -1023) % 2048).toNat = (e + 2 + 1023).toNat := by omega
-          rw [hE]
-          have hb : (q + 1) % 2 ^ 52 + (e + 2 + 1023).toNat * 2 ^ 52 < 2 ^ 63 := by omega
-          rw [signed_ofNat neg _ hb]
-  · simp only [hP, decide_false, Bool.false_eq_true, if_false, Nat.add_zero]
-    have h53 : ¬ q = 2 ^ 53 := by omega
-    simp only [h53, if_false]
-    have hcond : ((q >>> 52 == 0) = true) ↔ q < 2 ^ 52 := by
-      rw [beq_iff_eq, shr_eq_zero]
-    by_cases hlt : q < 2 ^ 52
-    · simp only [hcond.mpr hlt, if_true, hlt]
-      have h1 : ¬ ((-1023 : Int) > 2 ^ 11 + -1023 - 2) := by decide
-      have h2 : ¬ ((-1023 : Int) > 1023) := by decide
-      simp only [h1, decide_false, Bool.false_eq_true, if_false, h2]
+      rw [if_pos e1, if_pos h53, hs]
+      congr 1; omega
+    · have e1 : ¬ ((q + 1 == 2 ^ 53) = true) := by simpa using h53
+      rw [if_neg e1, if_neg h53]
+  · have h53 : ¬ q + 0 = 2 ^ 53 := by omega
+    simp only [hP, decide_false, Bool.false_eq_true, if_false]
+    rw [if_neg h53]
+    rfl
+
+/-- `hexPack` as arithmetic -/
+theorem hexPack_eq (mf : Nat) (ef : Int) (neg : Bool) (hmf : mf < 2 ^ 53) (hef : 2 ^ 52 ≤ mf → -1022 ≤ ef) :
+    hexPack mf ef neg =
+      if (if mf < 2 ^ 52 then (-1023 : Int) else ef) > 1023 then ⟨signed neg posInf, some .range⟩
+      else ⟨signed neg (UInt64.ofNat (mf % 2 ^ 52 + ((if mf < 2 ^ 52 then (-1023 : Int) else ef) + 1023).toNat * 2 ^ 52)), none⟩ := by
+  unfold hexPack
+  have hcond : ((mf >>> 52 == 0) = true) ↔ mf < 2 ^ 52 := by rw [beq_iff_eq, shr_eq_zero]
+  have hinf : UInt64.ofNat (if neg = true then ((2 : Nat) ^ 52 &&& (2 ^ 52 - 1) ||| ((((2 : Int) ^ 11 + -1023 - 2 + 1 - -1023) % 2048).toNat <<< 52)) ||| 2 ^ 63
+      else ((2 : Nat) ^ 52 &&& (2 ^ 52 - 1) ||| ((((2 : Int) ^ 11 + -1023 - 2 + 1 - -1023) % 2048).toNat <<< 52))) = signed neg posInf := by
+    rw [signed_ofNat neg _ (by decide)]; rfl
+  by_cases hlt : mf < 2 ^ 52
+  · have hc := hcond.mpr hlt
+    simp only [hc, hlt, if_true]
+    have h1 : ¬ ((-1023 : Int) > 2 ^ 11 + -1023 - 2) := by decide
+    have h2 : ¬ ((-1023 : Int) > 1023) := by decide
+    simp only [h1, decide_false, Bool.false_eq_true, if_false, h2]
+    rw [assemble]
+    have z1 : (((-1023 : Int) - -1023) % 2048).toNat = 0 := rfl
+    have z2 : ((-1023 : Int) + 1023).toNat = 0 := rfl
+    rw [z1, z2]
+    have hml := Nat.mod_lt mf (show 0 < 2 ^ 52 by decide)
+    have hb : mf % 2 ^ 52 + 0 * 2 ^ 52 < 2 ^ 63 := by omega
+    rw [signed_ofNat neg _ hb]
+  · have hc : (mf >>> 52 == 0) = false := by
+      cases h : (mf >>> 52 == 0)
+      · rfl
+      · exact absurd (hcond.mp h) hlt
+    simp only [hc, Bool.false_eq_true, hlt, if_false]
+    by_cases hov : ef > 2 ^ 11 + -1023 - 2
+    · have hov' : ef > 1023 := by omega
+      simp only [hov, decide_true, if_true, hov']
+      rw [hinf]
+    · have hov' : ¬ ef > 1023 := by omega
+      have hlo := hef (by omega)
+      simp only [hov, decide_false, Bool.false_eq_true, if_false, hov']
       rw [assemble]
-      have hb : q % 2 ^ 52 + ((-1023 : Int) + 1023).toNat * 2 ^ 52 < 2 ^ 63 := by omega
-      have hE : (((-1023 : Int) - -1023) % 2048).toNat = ((-1023 : Int) + 1023).toNat := by decide
-      rw [hE, signed_ofNat neg _ hb]
-    · have hne : ¬ ((q >>> 52 == 0) = true) := fun h => hlt (hcond.mp h)
-      simp only [hne, if_false, hlt]
-      by_cases hov : e + 2 > 2 ^ 11 + -1023 - 2
-      · have hov' : e + 2 > 1023 := by omega
-        simp only [hov, decide_true, if_true, hov']
-        have : UInt64.ofNat (if neg = true then ((2 : Nat) ^ 52 &&& (2 ^ 52 - 1) ||| ((((2 : Int) ^ 11 + -1023 - 2 + 1 - -1023) % 2048).toNat <<< 52)) ||| 2 ^ 63
-            else ((2 : Nat) ^ 52 &&& (2 ^ 52 - 1) ||| ((((2 : Int) ^ 11 + -1023 - 2 + 1 - -1023) % 2048).toNat <<< 52))) = signed neg posInf := by
-          rw [signed_ofNat neg _ (by decide)]; rfl
-        rw [this]
-      · have hov' : ¬ e + 2 > 1023 := by omega
-        simp only [hov, decide_false, Bool.false_eq_true, if_false, hov']
-        rw [assemble]
-        have hE : ((e + 2 - -1023) % 2048).toNat = (e + 2 + 1023).toNat := by omega
-        rw [hE]
-        have hb : q % 2 ^ 52 + (e + 2 + 1023).toNat * 2 ^ 52 < 2 ^ 63 := by omega
-        rw [signed_ofNat neg _ hb]
+      have hE : ((ef - -1023) % 2048).toNat = (ef + 1023).toNat := by omega
+      rw [hE]
+      have hb : mf % 2 ^ 52 + (ef + 1023).toNat * 2 ^ 52 < 2 ^ 63 := by omega
+      rw [signed_ofNat neg _ hb]
+
+/-! ### Part F: `atofHex` = one correct rounding -/
+
+/-- the rounded mantissa -/
+def qOf (m : Nat) : Nat := m / 4 + (if m % 4 = 3 ∨ (m % 4 = 2 ∧ (m / 4) % 2 = 1) then 1 else 0)
+
+theorem stick_bounds (m : Nat) (x : ℚ) (hs : Stick m x) :
+    (m < 2 ^ 55 → x < 2 ^ 55) ∧ (2 ^ 54 ≤ m → (2 : ℚ) ^ 54 ≤ x) ∧ (m ≤ 1 → x < 2) ∧ (0 < m → 0 < x) := by
+  obtain ⟨h0, h1⟩ := hs
+  rcases Nat.mod_two_eq_zero_or_one m with h | h
+  · have hx := h0 h
+    refine ⟨fun hm => ?_, fun hm => ?_, fun hm => ?_, fun hm => ?_⟩
+    · rw [hx]; exact_mod_cast hm
+    · rw [hx]; exact_mod_cast hm
+    · rw [hx]; have : m = 0 := by omega
+      subst this; norm_num
+    · rw [hx]; exact_mod_cast hm
+  · obtain ⟨l, u⟩ := h1 h
+    refine ⟨fun hm => ?_, fun hm => ?_, fun hm => ?_, fun hm => ?_⟩
+    · have : (m : ℚ) + 1 ≤ 2 ^ 55 := by exact_mod_cast (show m + 1 ≤ 2 ^ 55 by omega)
+      linarith
+    · have : (2 : ℚ) ^ 54 + 1 ≤ m := by exact_mod_cast (show 2 ^ 54 + 1 ≤ m by omega)
+      linarith
+    · have : (m : ℚ) ≤ 1 := by exact_mod_cast hm
+      linarith
+    · have : (1 : ℚ) ≤ m := by exact_mod_cast (show 1 ≤ m by omega)
+      linarith
+
+/-- the main case: the state (m, e) after the three loops, e ≥ −1024, normalised or at the
+denormal exponent -/
+theorem finish_main (V : ℚ) (n d : Nat) (hn : 0 < n) (hd : 0 < d) (hV : (n : ℚ) / d = V)
+    (m : Nat) (e : Int) (neg : Bool) (hs : Stick m (scaleAt V e)) (hm : m < 2 ^ 55)
+    (he : -1024 ≤ e) (hnorm : 2 ^ 54 ≤ m ∨ e = -1024) :
+    hexFinish m e neg =
+      ⟨signed neg (roundMag n d), if roundMag n d = posInf then some .range else none⟩ := by
+  obtain ⟨b1, b2, _, _⟩ := stick_bounds m _ hs
+  have hx55 := b1 hm
+  -- x / 4 = (n/d) · 2^(50 − e)
+  have hx4 : (n : ℚ) / d * (2 : ℚ) ^ (50 - e) = scaleAt V e / 4 := by
+    rw [hV]; unfold scaleAt
+    have : (52 : Int) - e = (50 - e) + 2 := by omega
+    rw [this, zpow_add₀ (by norm_num : (2 : ℚ) ≠ 0)]
+    norm_num
+    ring
+  have hshift : shiftOf n d = 50 - e := by
+    apply shiftOf_uniqueQ n d hn hd (50 - e) (by omega)
+    · rw [hx4]; linarith
+    · intro hlt
+      have : 2 ^ 54 ≤ m := by
+        rcases hnorm with h | h
+        · exact h
+        · omega
+      have := b2 this
+      rw [hx4]; linarith
+  have hrne : rne (scaled n d (50 - e)).1 (scaled n d (50 - e)).2 = qOf m := by
+    unfold qOf
+    apply rne_of_stick m _ hs _ _ (scaled_snd_pos n _ hd)
+    rw [scaled_ratio, hx4]
+  have hmag : magBits n d = (e + 1024).toNat * 2 ^ 52 + qOf m := by
+    unfold magBits
+    rw [hshift, hrne]
+    congr 2; omega
+  rw [roundMag_eq n d hn hd, hmag, hexFinish_split, roundStep_eq m e hm]
+  have hq : m / 4 < 2 ^ 53 := by omega
+  have hq' : qOf m ≤ 2 ^ 53 := by unfold qOf; split <;> omega
+  have hqlo : 2 ^ 52 ≤ qOf m ∨ e = -1024 := by
+    rcases hnorm with h | h
+    · left; unfold qOf; omega
+    · right; exact h
+  show hexPack (if qOf m = 2 ^ 53 then (2 ^ 52, e + 3) else (qOf m, e + 2)).1
+      (if qOf m = 2 ^ 53 then (2 ^ 52, e + 3) else (qOf m, e + 2)).2 neg = _
+  generalize qOf m = q at *
+  have hinf : posInf = UInt64.ofNat 0x7FF0000000000000 := by decide
+  by_cases h53 : q = 2 ^ 53
+  · simp only [h53, if_true]
+    rw [hexPack_eq _ _ neg (by decide) (fun _ => by omega)]
+    have e1 : ¬ ((2 : Nat) ^ 52 < 2 ^ 52) := by decide
+    simp only [e1, if_false]
+    by_cases hov : e + 3 > 1023
+    · have : (e + 1024).toNat * 2 ^ 52 + 2 ^ 53 ≥ 0x7FF0000000000000 := by omega
+      simp only [hov, if_true, this]
+    · have hlt : ¬ (e + 1024).toNat * 2 ^ 52 + 2 ^ 53 ≥ 0x7FF0000000000000 := by omega
+      simp only [hov, if_false, hlt]
+      have hb : (2 : Nat) ^ 52 % 2 ^ 52 + (e + 3 + 1023).toNat * 2 ^ 52 = (e + 1024).toNat * 2 ^ 52 + 2 ^ 53 := by omega
+      rw [hb]
+      have hne : UInt64.ofNat ((e + 1024).toNat * 2 ^ 52 + 2 ^ 53) ≠ posInf := by
+        rw [hinf]; intro h
+        have := congrArg UInt64.toNat h
+        rw [UInt64.toNat_ofNat', UInt64.toNat_ofNat', Nat.mod_eq_of_lt (by omega), Nat.mod_eq_of_lt (by decide)] at this
+        omega
+      simp only [hne, if_false]
+  · simp only [h53, if_false]
+    rw [hexPack_eq _ _ neg (by omega) (fun _ => by omega)]
+    by_cases h52 : q < 2 ^ 52
+    · have he' : e = -1024 := by rcases hqlo with h | h <;> omega
+      subst he'
+      have h2 : ¬ ((-1023 : Int) > 1023) := by decide
+      have z1 : ((-1024 : Int) + 1024).toNat = 0 := rfl
+      have z2 : ((-1023 : Int) + 1023).toNat = 0 := rfl
+      simp only [h52, if_true, h2, if_false, z1, z2, Nat.zero_mul, Nat.zero_add, Nat.add_zero]
+      have hlt : ¬ q ≥ 0x7FF0000000000000 := by omega
+      simp only [hlt, if_false]
+      rw [Nat.mod_eq_of_lt h52]
+      have hne : UInt64.ofNat q ≠ posInf := by
+        rw [hinf]; intro h
+        have := congrArg UInt64.toNat h
+        rw [UInt64.toNat_ofNat', UInt64.toNat_ofNat', Nat.mod_eq_of_lt (by omega), Nat.mod_eq_of_lt (by decide)] at this
+        omega
+      simp only [hne, if_false]
+    · simp only [h52, if_false]
+      by_cases hov : e + 2 > 1023
+      · have : (e + 1024).toNat * 2 ^ 52 + q ≥ 0x7FF0000000000000 := by omega
+        simp only [hov, if_true, this]
+      · have hlt : ¬ (e + 1024).toNat * 2 ^ 52 + q ≥ 0x7FF0000000000000 := by omega
+        simp only [hov, if_false, hlt]
+        have hb : q % 2 ^ 52 + (e + 2 + 1023).toNat * 2 ^ 52 = (e + 1024).toNat * 2 ^ 52 + q := by omega
+        rw [hb]
+        have hne : UInt64.ofNat ((e + 1024).toNat * 2 ^ 52 + q) ≠ posInf := by
+          rw [hinf]; intro h
+          have := congrArg UInt64.toNat h
+          rw [UInt64.toNat_ofNat', UInt64.toNat_ofNat', Nat.mod_eq_of_lt (by omega), Nat.mod_eq_of_lt (by decide)] at this
+          omega
+        simp only [hne, if_false]
+
+/-- the vanishing case: one sticky bit left far below the denormal range -/
+theorem finish_tiny (V : ℚ) (n d : Nat) (hn : 0 < n) (hd : 0 < d) (hV : (n : ℚ) / d = V)
+    (e : Int) (neg : Bool) (hs : Stick 1 (scaleAt V e)) (he : e < -1024) :
+    hexFinish 1 e neg =
+      ⟨signed neg (roundMag n d), if roundMag n d = posInf then some .range else none⟩ := by
+  obtain ⟨_, _, b3, b4⟩ := stick_bounds 1 _ hs
+  have hx2 := b3 (Nat.le_refl 1)
+  have hx0 := b4 (by decide)
+  -- (n/d)·2^1074 = x · 2^(e+1022) < 1/4
+  have hval : (n : ℚ) / d * (2 : ℚ) ^ (1074 : Int) = scaleAt V e * (2 : ℚ) ^ (e + 1022) := by
+    rw [hV]; unfold scaleAt
+    rw [mul_assoc, ← zpow_add₀ (by norm_num : (2 : ℚ) ≠ 0)]
+    congr 2; omega
+  have hsmall : (2 : ℚ) ^ (e + 1022) ≤ 2 ^ (-3 : Int) := zpow_le_zpow_right₀ (by norm_num) (by omega)
+  have hlt : (n : ℚ) / d * (2 : ℚ) ^ (1074 : Int) < 1 / 4 := by
+    rw [hval]
+    have h8 : (2 : ℚ) ^ (-3 : Int) = 1 / 8 := by norm_num
+    have hp : (0 : ℚ) < (2 : ℚ) ^ (e + 1022) := two_zpow_pos _
+    calc scaleAt V e * (2 : ℚ) ^ (e + 1022) < 2 * (2 : ℚ) ^ (e + 1022) := mul_lt_mul_of_pos_right hx2 hp
+      _ ≤ 2 * (1 / 8) := by rw [← h8]; linarith
+      _ = 1 / 4 := by norm_num
+  have hshift : shiftOf n d = 1074 := by
+    apply shiftOf_uniqueQ n d hn hd 1074 (by omega)
+    · linarith [show (1 : ℚ) / 4 < 2 ^ 53 by norm_num]
+    · intro h; omega
+  have hsc : 4 * (scaled n d 1074).1 < (scaled n d 1074).2 := by
+    have hp : (0 : ℚ) < ((scaled n d 1074).2 : ℚ) := by exact_mod_cast scaled_snd_pos n _ hd
+    have := scaled_ratio n d 1074
+    rw [← this, div_lt_iff₀ hp] at hlt
+    have : (4 * (scaled n d 1074).1 : ℚ) < (scaled n d 1074).2 := by linarith
+    exact_mod_cast this
+  have hrne : rne (scaled n d 1074).1 (scaled n d 1074).2 = 0 := by
+    rw [rne_def]
+    have hdiv : (scaled n d 1074).1 / (scaled n d 1074).2 = 0 := Nat.div_eq_of_lt (by omega)
+    have hmod : (scaled n d 1074).1 % (scaled n d 1074).2 = (scaled n d 1074).1 := Nat.mod_eq_of_lt (by omega)
+    rw [hdiv, hmod]
+    have : ¬ (2 * (scaled n d 1074).1 > (scaled n d 1074).2 ∨ 2 * (scaled n d 1074).1 = (scaled n d 1074).2 ∧ 0 % 2 = 1) := by omega
+    rw [if_neg this]
+  have hmag : magBits n d = 0 := by
+    unfold magBits; rw [hshift, hrne]; rfl
+  rw [roundMag_eq n d hn hd, hmag, hexFinish_split, roundStep_eq 1 e (by decide)]
+  have hq : (1 / 4 + (if 1 % 4 = 3 ∨ (1 % 4 = 2 ∧ (1 / 4) % 2 = 1) then 1 else 0) : Nat) = 0 := by decide
+  rw [hq]
+  have h53 : ¬ ((0 : Nat) = 2 ^ 53) := by decide
+  rw [if_neg h53]
+  show hexPack 0 (e + 2) neg = _
+  rw [hexPack_eq 0 (e + 2) neg (by decide) (fun h => by simp at h)]
+  have h1 : (0 : Nat) < 2 ^ 52 := by decide
+  have h2 : ¬ ((-1023 : Int) > 1023) := by decide
+  have h3 : ¬ ((0 : Nat) ≥ 0x7FF0000000000000) := by decide
+  have z2 : ((-1023 : Int) + 1023).toNat = 0 := rfl
+  have hne : UInt64.ofNat 0 ≠ posInf := by decide
+  simp only [h1, if_true, h2, if_false, h3, z2, Nat.zero_mod, Nat.zero_mul, Nat.add_zero, hne]
+
+theorem hexLoops_zero (e : Int) :
+    hexNormUp 64 0 e = (0, e) ∧ hexNormDown 64 0 e = (0, e) ∧ hexDenorm (-1022) 64 0 e = (0, e) := by
+  refine ⟨?_, ?_, ?_⟩
+  · rw [show (64 : Nat) = 63 + 1 from rfl, normUp_succ]; simp
+  · rw [show (64 : Nat) = 63 + 1 from rfl, normDown_succ]; simp
+  · rw [show (64 : Nat) = 63 + 1 from rfl, denorm_succ]; simp
+
+/-- from a sticky representation with at least 55 significant bits on: right shift with sticky
+bit, denormalisation, rounding, assembly -/
+theorem hex_core (V : ℚ) (n d : Nat) (hn : 0 < n) (hd : 0 < d) (hV : (n : ℚ) / d = V)
+    (m1 : Nat) (e1 : Int) (neg : Bool) (hs1 : Stick m1 (scaleAt V e1)) (u4 : 2 ^ 54 ≤ m1) (h64 : m1 < 2 ^ 64) :
+    hexFinish (hexDenorm (-1022) 64 (hexNormDown 64 m1 e1).1 (hexNormDown 64 m1 e1).2).1
+              (hexDenorm (-1022) 64 (hexNormDown 64 m1 e1).1 (hexNormDown 64 m1 e1).2).2 neg =
+      ⟨signed neg (roundMag n d), if roundMag n d = posInf then some .range else none⟩ := by
+  have hb1 : m1 < 2 ^ (55 + 64) := by
+    have : (2 : Nat) ^ 64 ≤ 2 ^ (55 + 64) := Nat.pow_le_pow_right (by decide) (by decide)
+    omega
+  obtain ⟨d1, d2, d3, d4⟩ := normDown_spec V 64 m1 e1 hs1 hb1
+  have d3' := d3 u4
+  have d4' := d4 (by omega)
+  generalize hexNormDown 64 m1 e1 = p2 at *
+  obtain ⟨f1, f2, f3, f4⟩ := denorm_spec V 64 p2.1 p2.2 d1 (by
+    have : (2 : Nat) ^ 55 ≤ 2 ^ 64 := by decide
+    omega)
+  have f3' := f3 d4'
+  rcases f4 with ⟨g1, g2⟩ | ⟨g1, g2⟩ | ⟨g1, g2, g3⟩
+  · rw [g1]
+    have : -1024 ≤ p2.2 := by rcases g2 with h | h <;> omega
+    exact finish_main V _ _ hn hd hV p2.1 p2.2 neg d1 d2 this (Or.inl d3')
+  · generalize hexDenorm (-1022) 64 p2.1 p2.2 = p3 at *
+    exact finish_main V _ _ hn hd hV p3.1 p3.2 neg f1 (by omega) (by omega) (Or.inr g2)
+  · generalize hexDenorm (-1022) 64 p2.1 p2.2 = p3 at *
+    have : p3.1 = 1 := by omega
+    rw [this] at f1 ⊢
+    exact finish_tiny V _ _ hn hd hV p3.2 neg f1 (by omega)
+
+/-- **`atofHex` is one correct rounding** of mantissa·2^exp (no truncated digits): the value is
+`roundMag` of the exact fraction with the sign attached, and the range error is reported
+exactly when that rounding saturates to infinity. -/
+theorem atofHex_correct (m0 : Nat) (e0 : Int) (neg : Bool) (hm0 : m0 < 2 ^ 64) :
+    atofHex m0 e0 neg false =
+      if m0 = 0 then ⟨F64.zero neg, none⟩
+      else ⟨signed neg (roundMag (toFrac m0 e0).1 (toFrac m0 e0).2),
+            if roundMag (toFrac m0 e0).1 (toFrac m0 e0).2 = posInf then some .range else none⟩ := by
+  rw [atofHex_eq]
+  by_cases h0 : m0 = 0
+  · subst h0
+    obtain ⟨a, b, c⟩ := hexLoops_zero (e0 + 52)
+    rw [a]; simp only []
+    rw [(hexLoops_zero (e0 + 52)).2.1, (hexLoops_zero (e0 + 52)).2.2]
+    simp only [if_true]
+    rw [hexFinish_split, roundStep_eq 0 _ (by decide)]
+    have hq : (0 / 4 + (if 0 % 4 = 3 ∨ (0 % 4 = 2 ∧ (0 / 4) % 2 = 1) then 1 else 0) : Nat) = 0 := by decide
+    rw [hq]
+    have h53 : ¬ ((0 : Nat) = 2 ^ 53) := by decide
+    rw [if_neg h53]
+    show hexPack 0 (e0 + 52 + 2) neg = _
+    rw [hexPack_eq 0 _ neg (by decide) (fun h => by simp at h)]
+    have h1 : (0 : Nat) < 2 ^ 52 := by decide
+    have h2 : ¬ ((-1023 : Int) > 1023) := by decide
+    have z2 : ((-1023 : Int) + 1023).toNat = 0 := rfl
+    simp only [h1, if_true, h2, if_false, z2, Nat.zero_mod, Nat.zero_mul, Nat.add_zero]
+    cases neg <;> rfl
+  · rw [if_neg h0]
+    have hpos : 0 < m0 := Nat.pos_of_ne_zero h0
+    let V : ℚ := (m0 : ℚ) * (2 : ℚ) ^ e0
+    have hV : (((toFrac m0 e0).1 : Nat) : ℚ) / ((toFrac m0 e0).2 : Nat) = V := toFrac_ratio m0 e0
+    have hd : 0 < (toFrac m0 e0).2 := toFrac_snd_pos _ _
+    have hVpos : 0 < V := mul_pos (by exact_mod_cast hpos) (two_zpow_pos _)
+    have hn : 0 < (toFrac m0 e0).1 := by
+      rcases Nat.eq_zero_or_pos (toFrac m0 e0).1 with h | h
+      · rw [h] at hV; simp at hV; linarith
+      · exact h
+    -- start: exact
+    have hstart : scaleAt V (e0 + 52) = (m0 : ℚ) := by
+      show (m0 : ℚ) * (2 : ℚ) ^ e0 * (2 : ℚ) ^ (52 - (e0 + 52)) = m0
+      rw [mul_assoc, ← zpow_add₀ (by norm_num : (2 : ℚ) ≠ 0)]
+      have : e0 + (52 - (e0 + 52)) = 0 := by omega
+      rw [this]; simp
+    obtain ⟨u1, _, u3⟩ := normUp_spec V 64 m0 (e0 + 52) hstart (Or.inr (by
+      have : (2 : Nat) ^ 54 ≤ 1 * 2 ^ 64 := by decide
+      exact Nat.le_trans this (Nat.mul_le_mul_right _ hpos)))
+    obtain ⟨u4, u5⟩ := u3 hpos
+    generalize hexNormUp 64 m0 (e0 + 52) = p1 at *
+    have hs1 : Stick p1.1 (scaleAt V p1.2) := by rw [u1]; exact stick_exact _
+    have hb1 : p1.1 < 2 ^ 64 := by
+      have : (2 : Nat) ^ 55 ≤ 2 ^ 64 := by decide
+      rcases u5 with h | h <;> omega
+    exact hex_core V _ _ hn hd hV p1.1 p1.2 neg hs1 u4 hb1
+
+/-! ### Part G: truncated hex mantissas (`trunc = true`) -/
+
+theorem atofHex_eq_trunc (m0 : Nat) (e0 : Int) (neg : Bool) :
+    atofHex m0 e0 neg true =
+      hexFinish (hexDenorm (-1022) 64 (hexNormDown 64 ((hexNormUp 64 m0 (e0 + 52)).1 ||| 1) (hexNormUp 64 m0 (e0 + 52)).2).1
+                    (hexNormDown 64 ((hexNormUp 64 m0 (e0 + 52)).1 ||| 1) (hexNormUp 64 m0 (e0 + 52)).2).2).1
+                (hexDenorm (-1022) 64 (hexNormDown 64 ((hexNormUp 64 m0 (e0 + 52)).1 ||| 1) (hexNormUp 64 m0 (e0 + 52)).2).1
+                    (hexNormDown 64 ((hexNormUp 64 m0 (e0 + 52)).1 ||| 1) (hexNormUp 64 m0 (e0 + 52)).2).2).2 neg := by
+  unfold atofHex
+  simp only [if_true, show ((-1023 : Int) + 1) = -1022 from rfl]
+  rfl
+
+/-- `mantissa |= 1` turns "strictly between m and m+1" into the sticky representation -/
+theorem stick_or_one (m : Nat) (x : ℚ) (l : (m : ℚ) < x) (u : x < m + 1) : Stick (m ||| 1) x := by
+  rw [or_one]
+  rcases Nat.mod_two_eq_zero_or_one m with h | h
+  · rw [h]
+    have : m + 1 - 0 = m + 1 := by omega
+    rw [this]
+    refine ⟨fun h' => by omega, fun _ => ?_⟩
+    push_cast; constructor <;> linarith
+  · rw [h]
+    have : m + 1 - 1 = m := by omega
+    rw [this]
+    refine ⟨fun h' => by omega, fun _ => ?_⟩
+    constructor <;> linarith
+
+/-- **`atofHex` with `trunc = true`**: when the true value V lies strictly between the kept
+64-bit mantissa m0 and m0 + 1 (in units of 2^exp) and m0 has at least 55 bits, the result is
+the correct rounding of V. -/
+theorem atofHex_trunc_correct (V : ℚ) (n d : Nat) (hn : 0 < n) (hd : 0 < d) (hV : (n : ℚ) / d = V)
+    (m0 : Nat) (e0 : Int) (neg : Bool) (h54 : 2 ^ 54 ≤ m0) (h64 : m0 < 2 ^ 64)
+    (l : (m0 : ℚ) < scaleAt V (e0 + 52)) (u : scaleAt V (e0 + 52) < m0 + 1) :
+    atofHex m0 e0 neg true =
+      ⟨signed neg (roundMag n d), if roundMag n d = posInf then some .range else none⟩ := by
+  rw [atofHex_eq_trunc]
+  have hup : hexNormUp 64 m0 (e0 + 52) = (m0, e0 + 52) := by
+    rw [show (64 : Nat) = 63 + 1 from rfl, normUp_succ]
+    have : ¬ (m0 ≠ 0 ∧ m0 < 2 ^ 54) := by omega
+    rw [if_neg this]
+  rw [hup]
+  simp only []
+  have hs := stick_or_one m0 _ l u
+  have hor : m0 ||| 1 = m0 + 1 - m0 % 2 := or_one m0
+  exact hex_core V n d hn hd hV (m0 ||| 1) (e0 + 52) neg hs (by omega) (by omega)
 
 end C03
